@@ -5,55 +5,97 @@
   * `build_chain` chain replication of 2–4 `ChainNode`s (plain and CRAQ), writes at the head, reads at the tail
     or (CRAQ) at any node, a partition inside the chain;
   * 2–4 `LeaderNode`s (multi-leader) with `LastWriterWins`, `VectorClockMerge` (with and without merge function)
-    or `CustomResolver`, anti-entropy rounds, writers at every leader, a partition that heals."""
+    or `CustomResolver`, anti-entropy rounds, writers at every leader, a partition that heals.
+
+Widened configuration space: one primary per `ReplicationMode` side by side (`pb_bank`) with 0–4 backups; a plain and a
+CRAQ chain side by side (`chain_bank`), chains of 2–6 nodes, a hand-wired single-node chain (`ChainNode(role=HEAD)`),
+writes sent to a non-head node; 1–5 leaders, the default resolver, one 2-leader group per resolver (`ml_bank`);
+anti-entropy started by a hand-made event, by `get_anti_entropy_event()` before the run, or by it during the run, with
+intervals from 20 ms to longer than the run and 0 (disabled); `KVStore` with `delete_latency`, a small `capacity`
+(eviction), zero / sub-millisecond / 100 ms latencies (store write latency longer than the client timeout and than the
+network hop), client timeouts of 1 ms … 1.5 s; lossless / zero-latency / 50 % / 100 % lossy links; bursts of same-instant
+requests, sustained heavy load, read-only and write-only clients; partition windows on instants that lose a nanosecond
+in `Instant.from_seconds`, windows that outlive the run; an occasional long run."""
 from __future__ import annotations
 
 import random
 
-from hv.scenarios.base import T, seed_all, stats_of, sub_seed
+from hv.scenarios.base import T, dur_ms, seed_all, stats_of, sub_seed
 
 NAME = "replication"
 MODEL = "C17"
-COMPONENTS = ["PrimaryNode", "BackupNode", "ReplicationMode", "ChainNode", "build_chain", "LeaderNode",
+COMPONENTS = ["PrimaryNode", "BackupNode", "ReplicationMode", "ChainNode", "ChainNodeRole", "build_chain", "LeaderNode",
               "LastWriterWins", "VectorClockMerge", "CustomResolver", "VersionedValue", "KVStore", "Network",
               "NetworkLink", "Partition", "SimFuture", "Source", "MerkleTree", "VectorClock"]
 
 
 def gen_cfg(rng):
-    end = rng.choice([2.0, 3.0, 4.0])
+    end = rng.choice([2.0, 3.0, 4.0]) if rng.random() > 0.1 else 8.0
     end_ms = int(end * 1000)
+    long = end > 5
 
     def win():
-        a = rng.randint(300, end_ms - 1000)
-        return [a, a + rng.randint(150, 700)]
+        a = dur_ms(rng, 100, end_ms - 500)
+        return [a, dur_ms(rng, a + 1, min(a + 1200, end_ms + 400))]
 
-    n_clients = rng.randint(3, 6)
+    def lat(lo, hi):
+        r = rng.random()
+        if r < 0.08:
+            return 0
+        return dur_ms(rng, lo, hi) if r < 0.8 else dur_ms(rng, hi, 150)
+
+    heavy = rng.random() < 0.15
+    n_clients = rng.randint(3, 6) if not heavy else rng.randint(1, 3)
+    clients = [{"rate": rng.choice([5, 10, 20, 40]) if not heavy else rng.choice([100, 200, 300]),
+                "poisson": rng.random() < 0.5,
+                "read_frac": rng.choice([0.0, 0.3, 0.6, 1.0]), "wait": rng.random() < 0.7,
+                "burst": rng.choice([1, 1, 1, 3, 12]) if not heavy else 1,
+                "bad_head": rng.random() < 0.15}         # some chain writes go to a non-head node
+               for _ in range(n_clients)]
+    while sum(c["rate"] * c["burst"] for c in clients) * end > (1500 if not long else 1000):
+        c = max(clients, key=lambda c: c["rate"] * c["burst"])
+        if c["burst"] > 1:
+            c["burst"] //= 2
+        elif c["rate"] > 5:
+            c["rate"] = max(5, c["rate"] // 2)
+        else:
+            break
+    ml_bank = rng.random() < 0.4
+    # 0 = periodic anti-entropy disabled (the constructor default)
+    ae = 0 if rng.random() < 0.12 else rng.choice([dur_ms(rng, 20 if not long else 60, 400),
+                                                   dur_ms(rng, 400, end_ms + 500)])
     return {
         "end": end,
         "events_before_sim": rng.random() < 0.25,
-        "link": rng.choice(["const", "exp", "exp-lossy", "datacenter", "jitter"]),
-        "lat_ms": rng.randint(1, 30),
-        "loss": rng.choice([0.02, 0.1]),
-        "wlat_ms": rng.randint(1, 8),
-        "rlat_ms": rng.randint(1, 4),
-        "keys": rng.randint(2, 6),
-        "timeout_ms": rng.choice([50, 200, 1000]),
-        "clients": [{"rate": rng.choice([5, 10, 20, 40]), "poisson": rng.random() < 0.5,
-                     "read_frac": rng.choice([0.0, 0.3, 0.6]), "wait": rng.random() < 0.7}
-                    for _ in range(n_clients)],
+        "link": rng.choice(["const", "exp", "exp-lossy", "datacenter", "jitter", "zero", "const-lossy"]),
+        "lat_ms": dur_ms(rng, 0.1, 30) if rng.random() < 0.7 else dur_ms(rng, 30, 600),
+        "loss": rng.choice([0.0, 0.02, 0.1, 0.5, 1.0]),
+        "wlat_ms": lat(0.1, 8),
+        "rlat_ms": lat(0.1, 4),
+        "dlat_ms": rng.choice([None, None, lat(0.1, 8)]),
+        "capacity": rng.choice([None, None, None, None, 1, 2, 5]),
+        "keys": rng.randint(1, 6) if rng.random() < 0.85 else 40,
+        "timeout_ms": dur_ms(rng, 1, 1500),
+        "clients": clients,
         # primary-backup
+        "pb_bank": rng.random() < 0.6,             # one primary per ReplicationMode, same backups count
         "pb_mode": rng.choice(["ASYNC", "SEMI_SYNC", "SYNC"]),
-        "pb_backups": rng.randint(1, 3),
+        "pb_backups": rng.choice([0, 1, 1, 2, 2, 3, 4]),
         "pb_serve_reads": rng.random() < 0.8,
         "pb_part": win() if rng.random() < 0.6 else None,
         # chain
-        "chain_len": rng.randint(2, 4),
+        "chain_len": rng.randint(2, 6),
         "craq": rng.random() < 0.5,
+        "chain_bank": rng.random() < 0.5,          # a second chain with the other CRAQ setting
+        "chain_solo": rng.random() < 0.3,          # plus a hand-wired single-node chain (HEAD without successor)
         "chain_part": win() if rng.random() < 0.4 else None,
         # multi-leader
-        "ml_n": rng.randint(2, 4),
-        "resolver": rng.choice(["lww", "vc", "vc-merge", "custom-max", "custom-first"]),
-        "ae_ms": rng.choice([0, 100, 300, 700]),
+        "ml_n": rng.randint(1, 5) if not ml_bank else 2,
+        "ml_bank": ml_bank,                        # one group of ml_n leaders per resolver
+        "resolver": rng.choice(["lww", "vc", "vc-merge", "custom-max", "custom-first", "default"]),
+        "ae_ms": ae,
+        "ae_start": rng.choice(["manual", "api", "api-late"]),
+        "ae_late_ms": dur_ms(rng, 50, end_ms - 300),
         "ml_part": win() if rng.random() < 0.7 else None,
     }
 
@@ -61,8 +103,9 @@ def gen_cfg(rng):
 def build(cfg, seed):
     from happysimulator.components.datastore.kv_store import KVStore
     from happysimulator.components.network import Network, NetworkLink, datacenter_network
-    from happysimulator.components.replication import (BackupNode, CustomResolver, LastWriterWins, LeaderNode,
-                                                       PrimaryNode, ReplicationMode, VectorClockMerge, build_chain)
+    from happysimulator.components.replication import (BackupNode, ChainNode, ChainNodeRole, CustomResolver,
+                                                       LastWriterWins, LeaderNode, PrimaryNode, ReplicationMode,
+                                                       VectorClockMerge, build_chain)
     from happysimulator.core.entity import Entity
     from happysimulator.core.event import Event
     from happysimulator.core.sim_future import SimFuture, any_of
@@ -90,6 +133,10 @@ def build(cfg, seed):
             return NetworkLink(name=name, latency=ExponentialLatency(lat))
         if k == "jitter":
             return NetworkLink(name=name, latency=ConstantLatency(lat), jitter=ExponentialLatency(lat / 2))
+        if k == "zero":
+            return NetworkLink(name=name, latency=ConstantLatency(0.0))
+        if k == "const-lossy":
+            return NetworkLink(name=name, latency=ConstantLatency(lat), packet_loss_rate=cfg["loss"])
         return NetworkLink(name=name, latency=ExponentialLatency(lat), packet_loss_rate=cfg["loss"])
 
     def mesh(nodes):
@@ -98,7 +145,12 @@ def build(cfg, seed):
                 net.add_bidirectional_link(a, b, mk_link(f"l-{a.name}-{b.name}"))
 
     def store(name):
-        return KVStore(name, write_latency=cfg["wlat_ms"] / 1000.0, read_latency=cfg["rlat_ms"] / 1000.0)
+        kw = {}
+        if cfg.get("dlat_ms") is not None:
+            kw["delete_latency"] = cfg["dlat_ms"] / 1000.0
+        if cfg.get("capacity") is not None:
+            kw["capacity"] = cfg["capacity"]
+        return KVStore(name, write_latency=cfg["wlat_ms"] / 1000.0, read_latency=cfg["rlat_ms"] / 1000.0, **kw)
 
     def at_s(ms):
         return Instant.from_seconds(ms / 1000.0)
@@ -116,29 +168,48 @@ def build(cfg, seed):
         pre.append(_d(Event.once, time=at_s(win[1]), event_type=f"Heal-{tag}", fn=lambda e: h["h"].heal()))
 
     # ------------------------------------------------------------------ primary-backup
-    p_store = store("pb-store-primary")
-    b_stores = [store(f"pb-store-{i}") for i in range(cfg["pb_backups"])]
-    backups = []
-    primary = PrimaryNode("primary", store=p_store, backups=backups, network=net,
-                          mode=ReplicationMode[cfg["pb_mode"]])
-    for i in range(cfg["pb_backups"]):
-        backups.append(BackupNode(f"backup-{i}", store=b_stores[i], network=net, primary=primary,
-                                  serve_reads=cfg["pb_serve_reads"]))
-    # (the primary keeps the list object it was given, which now holds the backups; its lag table fills lazily)
-    mesh([primary, *backups])
-    entities += [primary, *backups, p_store, *b_stores]
-    window(cfg["pb_part"], [primary], [backups[-1]], "pb")
+    pbs = []          # (primary, backups, primary store, backup stores)
+    modes = ["ASYNC", "SEMI_SYNC", "SYNC"] if cfg.get("pb_bank") else [cfg["pb_mode"]]
+    for mname in modes:
+        sfx = "" if len(modes) == 1 else "-" + mname.lower()
+        p_store = store(f"pb-store-primary{sfx}")
+        b_stores = [store(f"pb-store-{i}{sfx}") for i in range(cfg["pb_backups"])]
+        backups = []
+        primary = PrimaryNode("primary" + sfx, store=p_store, backups=backups, network=net,
+                              mode=ReplicationMode[mname])
+        for i in range(cfg["pb_backups"]):
+            backups.append(BackupNode(f"backup-{i}{sfx}", store=b_stores[i], network=net, primary=primary,
+                                      serve_reads=cfg["pb_serve_reads"]))
+        # (the primary keeps the list object it was given, which now holds the backups; its lag table fills lazily)
+        mesh([primary, *backups])
+        entities += [primary, *backups, p_store, *b_stores]
+        if backups:
+            window(cfg["pb_part"], [primary], [backups[-1]], "pb" + sfx)
+        pbs.append((primary, backups, p_store, b_stores))
 
     # ------------------------------------------------------------------ chain
-    chain = build_chain([f"chain-{i}" for i in range(cfg["chain_len"])], net, store_factory=store,
-                        craq_enabled=cfg["craq"])
-    mesh(chain)
-    entities += chain + [c.store for c in chain]
-    window(cfg["chain_part"], [chain[0]], [chain[-1]], "chain")
+    chains = []
+    craqs = [cfg["craq"], not cfg["craq"]] if cfg.get("chain_bank") else [cfg["craq"]]
+    for ci, craq in enumerate(craqs):
+        pfx = "chain" if ci == 0 else "chain2"
+        ch = build_chain([f"{pfx}-{i}" for i in range(cfg["chain_len"])], net, store_factory=store, craq_enabled=craq)
+        mesh(ch)
+        entities += ch + [c.store for c in ch]
+        window(cfg["chain_part"], [ch[0]], [ch[-1]], pfx)
+        chains.append((ch, craq))
+    if cfg.get("chain_solo"):
+        # a hand-wired chain of one node: HEAD without successor commits locally
+        solo = ChainNode("solo-0", store=store("solo-0_store"), network=net, role=ChainNodeRole.HEAD,
+                         craq_enabled=cfg["craq"])
+        solo.head_node = solo
+        entities += [solo, solo.store]
+        chains.append(([solo], cfg["craq"]))
+    chain = chains[0][0]
 
     # ------------------------------------------------------------------ multi-leader
-    def resolver():
-        r = cfg["resolver"]
+    def resolver(r):
+        if r == "default":
+            return None                      # the constructor's default resolver
         if r == "lww":
             return LastWriterWins()
         if r == "vc":
@@ -149,17 +220,36 @@ def build(cfg, seed):
             return CustomResolver(lambda key, versions: max(versions, key=lambda v: (str(v.value), v.writer_id)))
         return CustomResolver(lambda key, versions: min(versions, key=lambda v: (v.timestamp, v.writer_id)))
 
-    leaders = [LeaderNode(f"leader-{r}", store=store(f"ml-store-{r}"), network=net, conflict_resolver=resolver(),
-                          anti_entropy_interval=cfg["ae_ms"] / 1000.0)
-               for r in ["east", "west", "eu", "ap"][: cfg["ml_n"]]]
-    for ld in leaders:
-        ld.add_peers([x for x in leaders if x is not ld])
-    mesh(leaders)
-    entities += leaders + [ld.store for ld in leaders]
-    if cfg["ae_ms"]:
-        for ld in leaders:
-            pre.append(_d(Event, time=at_s(cfg["ae_ms"]), event_type="AntiEntropy", target=ld, daemon=True))
-    window(cfg["ml_part"], [leaders[0]], leaders[1:], "ml")
+    ml_groups = []
+    rnames = (["lww", "vc", "vc-merge", "custom-max", "custom-first", "default"] if cfg.get("ml_bank")
+              else [cfg["resolver"]])
+    ae_start = cfg.get("ae_start", "manual")
+    for rname in rnames:
+        sfx = "" if len(rnames) == 1 else "-" + rname
+        grp = [LeaderNode(f"leader-{r}{sfx}", store=store(f"ml-store-{r}{sfx}"), network=net,
+                          conflict_resolver=resolver(rname), anti_entropy_interval=cfg["ae_ms"] / 1000.0)
+               for r in ["east", "west", "eu", "ap", "sa"][: cfg["ml_n"]]]
+        for ld in grp:
+            ld.add_peers([x for x in grp if x is not ld])
+        mesh(grp)
+        entities += grp + [ld.store for ld in grp]
+        if ae_start == "manual":
+            # hand-made first round, as tests/unit/components/replication/test_multi_leader.py does; with
+            # ae_ms == 0 ("disabled") this is a single manually triggered round at 100 ms
+            if cfg["ae_ms"] or "ae_start" in cfg:
+                for ld in grp:
+                    pre.append(_d(Event, time=at_s(cfg["ae_ms"] or 100), event_type="AntiEntropy", target=ld,
+                                  daemon=True))
+        elif ae_start == "api-late":
+            # get_anti_entropy_event() called while the simulation runs stamps the first round "now"
+            def start_ae(e, grp=grp):
+                return [ev for ev in (ld.get_anti_entropy_event() for ld in grp) if ev is not None]
+            pre.append(_d(Event.once, time=at_s(cfg.get("ae_late_ms", 100)), event_type="StartAntiEntropy",
+                          fn=start_ae, daemon=True))
+        if len(grp) > 1:
+            window(cfg["ml_part"], [grp[0]], grp[1:], "ml" + sfx)
+        ml_groups.append(grp)
+    leaders = [ld for grp in ml_groups for ld in grp]
 
     # ------------------------------------------------------------------ clients
     class Client(Entity):
@@ -168,21 +258,32 @@ def build(cfg, seed):
             self.i, self.cc = i, cc
             self.rng = random.Random(sub_seed(seed, "client", i))
             self.n = self.writes = self.reads = self.ok = self.timed_out = self.fire_forget = 0
+            self.bad_head = self.errors = 0
             self.seen = []
 
         def handle_event(self, event):
+            burst = self.cc.get("burst", 1)
+            k = event.context.get("burst_left", burst - 1) if burst > 1 else 0
+            if k > 0:
+                # the remaining requests of this burst start at the same instant, each in its own process
+                yield 0.0, [Event(time=self.now, event_type="Tick", target=self, context={"burst_left": k - 1})]
             self.n += 1
             group = self.n % 3
             key = self.rng.choice(["user-", "k"]) + str(self.rng.randrange(cfg["keys"]))
             read = self.rng.random() < self.cc["read_frac"]
             if group == 0:
+                primary, backups, _, _ = pbs[0] if len(pbs) == 1 else pbs[(self.i + self.n // 3) % len(pbs)]
                 tgt = primary
                 if read and backups and self.rng.random() < 0.5:
                     tgt = self.rng.choice(backups)
             elif group == 1:
-                tgt = chain[0]
+                ch, craq = chains[0] if len(chains) == 1 else chains[(self.i + self.n // 3) % len(chains)]
+                tgt = ch[0]
                 if read:
-                    tgt = self.rng.choice(chain) if cfg["craq"] else chain[-1]
+                    tgt = self.rng.choice(ch) if craq else ch[-1]
+                elif self.cc.get("bad_head") and len(ch) > 1 and self.rng.random() < 0.3:
+                    tgt = ch[-1]             # a write sent to a non-head node is answered with an error
+                    self.bad_head += 1
             else:
                 tgt = leaders[(self.i + self.n // 3) % len(leaders)]
             md = {"key": key}
@@ -205,6 +306,8 @@ def build(cfg, seed):
             idx, val = yield any_of(reply, to)
             if idx == 0:
                 self.ok += 1
+                if val.get("status") == "error":
+                    self.errors += 1
                 if read and len(self.seen) < 30:
                     self.seen.append([tgt.name, key, val.get("value"), val.get("stale", False)])
             else:
@@ -222,25 +325,34 @@ def build(cfg, seed):
     def contents(st):
         return sorted((k, st.get_sync(k)) for k in st.keys())
 
-    obs["primary"] = stats_of(primary)
-    obs["primary.x"] = lambda: {"lag": {k: v for k, v in primary.backup_lag.items() if not k.startswith("_")},
-                                "mode": primary.mode.name, "data": contents(p_store)}
-    for i, b in enumerate(backups):
-        obs[b.name] = stats_of(b)
-        obs[b.name + ".x"] = (lambda b=b, st=b_stores[i]: {"last": b.last_applied_seq, "data": contents(st)})
-    for c in chain:
-        obs[c.name] = stats_of(c)
-        obs[c.name + ".x"] = (lambda c=c: {"role": c.role.name, "dirty": sorted(c.dirty_keys),
-                                           "data": contents(c.store)})
+    for primary, backups, p_store, b_stores in pbs:
+        obs[primary.name] = stats_of(primary)
+        obs[primary.name + ".x"] = (lambda primary=primary, p_store=p_store: {
+            "lag": {k: v for k, v in primary.backup_lag.items() if not k.startswith("_")},
+            "mode": primary.mode.name, "data": contents(p_store), "store": stats_of(p_store)()})
+        for i, b in enumerate(backups):
+            obs[b.name] = stats_of(b)
+            obs[b.name + ".x"] = (lambda b=b, st=b_stores[i]: {"last": b.last_applied_seq, "data": contents(st),
+                                                               "store": stats_of(st)()})
+    for ch, _ in chains:
+        for c in ch:
+            obs[c.name] = stats_of(c)
+            obs[c.name + ".x"] = (lambda c=c: {"role": c.role.name, "dirty": sorted(c.dirty_keys),
+                                               "is_head": c.role is ChainNodeRole.HEAD,
+                                               "is_tail": c.role is ChainNodeRole.TAIL,
+                                               "is_middle": c.role is ChainNodeRole.MIDDLE,
+                                               "data": contents(c.store), "store": stats_of(c.store)()})
     for ld in leaders:
         obs[ld.name] = stats_of(ld)
         obs[ld.name + ".x"] = (lambda ld=ld: {
-            "data": contents(ld.store), "root": ld.merkle_tree.root_hash,
+            "data": contents(ld.store), "root": ld.merkle_tree.root_hash, "peers": [x.name for x in ld.peers],
+            "store": stats_of(ld.store)(),
             "versions": sorted([k, v.value, v.timestamp, v.writer_id, sorted((v.vector_clock or {}).items())]
                                for k, v in ld.versions.items())})
     for cl in clients:
         obs[cl.name] = (lambda cl=cl: {"n": cl.n, "w": cl.writes, "r": cl.reads, "ok": cl.ok,
-                                       "timeout": cl.timed_out, "ff": cl.fire_forget, "seen": cl.seen})
+                                       "timeout": cl.timed_out, "ff": cl.fire_forget, "bad_head": cl.bad_head,
+                                       "errors": cl.errors, "seen": cl.seen})
     obs["net"] = lambda: {"routed": net.events_routed, "no_route": net.events_dropped_no_route,
                           "partition": net.events_dropped_partition,
                           "matrix": [[s.source, s.destination, s.packets_sent, s.packets_dropped]
@@ -256,4 +368,10 @@ def build(cfg, seed):
         evs = [f(**kw) for f, kw in pre]
     for ev in evs:
         sim.schedule(ev)
+    if ae_start == "api":
+        # the documented way: ask every leader for its first anti-entropy event before the run
+        for ld in leaders:
+            ev = ld.get_anti_entropy_event()
+            if ev is not None:
+                sim.schedule(ev)
     return sim, obs
